@@ -227,6 +227,95 @@ func guardsOf(i ssa.Instruction) []guardAtom {
 			out = append(out, guardsOf(at)...)
 		}
 	}
+	// a test of what a classifying helper returned (an enumeration value, a nil or non-nil error) stands for the
+	// conditions under which the helper returns that
+	out = append(out, classifierGuards(out)...)
+	return out
+}
+
+// classifierGuards: for each guard `H(...)#k == C` (or != C, or a nil test of an error result) on a result of a
+// package function H, the guards that hold at every return of H that produces such a value.
+func classifierGuards(gs []guardAtom) []guardAtom {
+	var out []guardAtom
+	for _, g := range gs {
+		x, k, equal, ok := eqConst(g)
+		if !ok {
+			continue
+		}
+		var call *ssa.Call
+		idx := 0
+		switch v := x.(type) {
+		case *ssa.Extract:
+			call, _ = v.Tuple.(*ssa.Call)
+			idx = v.Index
+		case *ssa.Call:
+			call = v
+		}
+		if call == nil {
+			continue
+		}
+		h := call.Call.StaticCallee()
+		if h == nil || len(h.Blocks) == 0 || curCtx == nil || !curCtx.P.InPkg(h) || h.Signature.Results().Len() <= idx {
+			continue
+		}
+		// returns of h whose result idx agrees with the guard
+		var common []guardAtom
+		first, any, decidable := true, false, true
+		core.EachInstr(h, func(j ssa.Instruction) {
+			ret, ok := j.(*ssa.Return)
+			if !ok || idx >= len(ret.Results) || ret.Block() == h.Recover {
+				return
+			}
+			rv := ret.Results[idx]
+			var same bool
+			if k.IsNil() {
+				rc, isConst := rv.(*ssa.Const)
+				isNil := isConst && rc.IsNil()
+				if !isConst {
+					// a fresh error or another call's result: non-nil only if it is a constructor of errors
+					if cc, isCall := rv.(*ssa.Call); isCall {
+						switch core.CalleeKey(&cc.Call) {
+						case "fmt.Errorf", "errors.New":
+						default:
+							decidable = false
+						}
+					} else {
+						decidable = false
+					}
+				}
+				same = isNil
+			} else {
+				rc, isConst := rv.(*ssa.Const)
+				if !isConst || rc.Value == nil || k.Value == nil {
+					decidable = false
+					return
+				}
+				same = constant.Compare(rc.Value, token.EQL, k.Value)
+			}
+			if same != equal {
+				return
+			}
+			any = true
+			local := guardsLocal(ret)
+			if first {
+				common, first = local, false
+				return
+			}
+			var keep []guardAtom
+			for _, a := range common {
+				for _, b := range local {
+					if a.Cond == b.Cond && a.Pol == b.Pol {
+						keep = append(keep, a)
+						break
+					}
+				}
+			}
+			common = keep
+		})
+		if any && decidable {
+			out = append(out, common...)
+		}
+	}
 	return out
 }
 
